@@ -643,6 +643,7 @@ func runC06(c *Ctx) {
 	R.Rules["E3.reply-input"] = "the message that reassembly hands to the reply path carries the reassembled bytes as its Body (the field every ReplyBody parses), the same bytes as its raw data, and the complete flag: a sub-packaged 0x0801 / 0x0102 is answered from the whole body, not from its last fragment"
 	c.completedMessageStandalone("E3.reply-input")
 	R.Require("E3.reply-input", 3, "")
+	c.consumedOnlyIfCompleted("S.consumed")
 	R.Explain = "Structural necessary conditions of 'one correctly correlated reply per request': the registry's reply table equals the standard's; each reply body echoes the request's serial / ID / result / auth code / multimedia ID (symbolic values compared by identity); " +
 		"every frame-writing function draws exactly one serial, stores it into the request's own header before Encode, writes Encode's result, and never draws a serial without writing; one consumer of the message channel, all writes in the writer role; unsupported IDs are neither forwarded nor answered; handler objects are per connection. " +
 		"Counting replies over concrete histories and the 65536-wrap are not decided beyond the generator rule of C12."
